@@ -1,5 +1,7 @@
 import Secp.Proofs.ScalarEnc
 import Secp.Hand.Group
+import Secp.Proofs.BytesTies
+import Secp.Proofs.ScalarCodecTies
 /-!
 # C07 — scalar encodings are canonical 32-byte big-endian; decoding rejects all else
 
@@ -55,6 +57,38 @@ theorem decodeHex_hex (r s : L4) (hs : sOk s) :
     Hand.Scalar.decodeHex r (toHex (Hand.Scalar.encode s)) = (none, s) :=
   (decodeHex_toHex r (Hand.Scalar.encode s) (by rw [sc_encode s hs]; exact i2osp_isBytes _ _)).trans
     (sc_decode_encode r s hs)
+
+/-- the byte-level functions regenerated from `internal/scalar` on this run (`BytesToNonMontgomery`, `NonMontgomeryToBytes`,
+`ReduceBytes`, `FromBytesNoReduce`) do not panic on inputs of the stated lengths and are the model's -/
+theorem byte_functions_regenerated (out : L4) (b : Bytes) :
+    GenScalarBytes.nonMontgomeryToBytes out = some (Hand.limbsToBytes out) ∧
+    (b.length = 32 → GenScalarBytes.bytesToNonMontgomery b = some (Hand.bytesToLimbs b)) ∧
+    (b.length = 32 → GenScalarBytes.reduceBytes out b = some (Hand.Fn.reduceBytes b)) ∧
+    (b.length ≤ 32 → GenScalarBytes.fromBytesNoReduce out b = some (Hand.Fn.fromBytesNoReduce b)) :=
+  ⟨BytesTies.fn_nonMontgomeryToBytes out, BytesTies.fn_bytesToNonMontgomery b, BytesTies.fn_reduceBytes out b,
+    BytesTies.fn_fromBytesNoReduce out b⟩
+
+/-- **the codec regenerated from `scalar.go` on this run** (`GenScalarCodec`: the length `switch` of `Decode` with its early
+returns, the `[32]byte(in)` conversion, the call into `scalar.ReduceBytes` and the too-big test; `Encode`; the hex and
+binary-marshalling wrappers) never panics and is the model the theorems above are about. The result of a decoder is
+(receiver afterwards, error); an error is the name of the package's error variable -/
+theorem codec_regenerated (s : L4) (b : Bytes) (h : String) :
+    GenScalarCodec.scalar_encode s = some (Hand.Scalar.encode s) ∧
+    GenScalarCodec.scalar_decode s b = some (ScalarCodecTies.shape (Hand.Scalar.decode s b)) ∧
+    GenScalarCodec.scalar_hex s = some (Spec.toHex (Hand.Scalar.encode s)) ∧
+    GenScalarCodec.scalar_decodeHex s h = some (ScalarCodecTies.shape (Hand.Scalar.decodeHex s h)) ∧
+    GenScalarCodec.scalar_marshalBinary s = some (Hand.Scalar.encode s, none) ∧
+    GenScalarCodec.scalar_unmarshalBinary s b = some (ScalarCodecTies.shape (Hand.Scalar.decode s b)) :=
+  ⟨ScalarCodecTies.encode_tie s, ScalarCodecTies.decode_tie s b, ScalarCodecTies.hex_tie s, ScalarCodecTies.decodeHex_tie s h,
+    ScalarCodecTies.marshal_tie s, ScalarCodecTies.unmarshal_tie s b⟩
+
+/-- the regenerated `Encode` emits the canonical value, the regenerated `Decode` of it gives the scalar back with no error -/
+theorem regenerated_roundtrip (r s : L4) (hs : sOk s) :
+    GenScalarCodec.scalar_encode s = some (i2osp (sVal s).val 32) ∧
+    GenScalarCodec.scalar_decode r (i2osp (sVal s).val 32) = some (s, none) := by
+  refine ⟨by rw [ScalarCodecTies.encode_tie, encode_canonical s hs], ?_⟩
+  rw [ScalarCodecTies.decode_tie, ← encode_canonical s hs, decode_encode r s hs]
+  rfl
 
 /-- `Order()` is the canonical 32-byte encoding of the group order `n` — the first value `Decode` rejects as too big -/
 theorem order_bytes : Hand.Group.order = i2osp N 32 ∧ os2ip Hand.Group.order = N := by
